@@ -4,10 +4,95 @@ import IwModel.Model.Avl
 import IwModel.Model.Ring
 import IwModel.Model.XStr
 import IwModel.Model.Pool
-/-! C18: containers behave as their plain reference models (theorems are added below). -/
+import IwModel.Lemmas.Avl
+/-!
+C18: containers behave as their plain reference models for every call sequence.
+
+Each section states, for the mechanism model of one container (the definitions `drv c18` executes and the
+correspondence check compares with the C code), that every call returns what the plain reference structure
+returns and keeps the container's representation invariant, for all states reachable by any call sequence.
+-/
 namespace IwModel.C18
 
 /-- side conditions on the regenerated constants that the proofs use -/
 theorem consts_ok : 0 < HMap.MIN_BUCKETS ∧ 0 < HMap.STEPS ∧ 0 < Arr.ALLOC_UNIT := by decide
+
+/-! ## AVL tree (`iwavl.c`): reference = strictly increasing list of keys -/
+section AVL
+open Avl
+
+/-- `iwavl_insert` + `iwavl_rebalance_after_insert` on a search tree: the in-order key sequence becomes the
+reference set insertion, and the call reports "inserted" exactly when the key was absent. -/
+theorem avl_insert_refines (t : Tree) (x : Int) (h : Bst t) :
+    toList (insert t x).1 = insL x (toList t) ∧ ((insert t x).2 = true ↔ x ∉ toList t) := by
+  refine ⟨toList_insertAux x t h, ?_⟩
+  show (insertAux x t).2.1 = true ↔ _
+  rw [insertAux_flag, ← mem_iff x t h]; simp
+
+/-- `iwavl_remove` of the node holding `x` (found by `iwavl_lookup`): the in-order sequence loses exactly `x`. -/
+theorem avl_remove_refines (t : Tree) (x : Int) (h : Bst t) :
+    toList (remove t x).1 = (toList t).erase x ∧ ((remove t x).2 = true ↔ x ∈ toList t) := by
+  refine ⟨toList_removeAux x t h, ?_⟩
+  show (removeAux x t).2.1 = true ↔ _
+  rw [removeAux_flag, mem_iff x t h]
+
+/-- the search-tree order survives insertion and removal, whatever rotations were done -/
+theorem avl_bst (t : Tree) (x : Int) (h : Bst t) : Bst (insert t x).1 ∧ Bst (remove t x).1 := by
+  constructor
+  · unfold Bst; rw [(avl_insert_refines t x h).1]; exact insL_sorted x _ h
+  · unfold Bst; rw [(avl_remove_refines t x h).1]; exact List.Pairwise.sublist List.erase_sublist h
+
+/-- every stored balance factor stays the true height difference in {-1,0,1}: all four rotation cases of
+`avl_handle_subtree_growth` and all six of `avl_handle_subtree_shrink` restore the AVL condition -/
+theorem avl_balanced (t : Tree) (x : Int) (h : Bal t) : Bal (insert t x).1 ∧ Bal (remove t x).1 :=
+  ⟨(insertAux_bal x t h).1, (removeAux_bal x t h).1⟩
+
+/-- `iwavl_lookup` finds exactly the keys of the reference list -/
+theorem avl_lookup_iff (t : Tree) (x : Int) (h : Bst t) : mem x t = true ↔ x ∈ toList t := mem_iff x t h
+
+/-- `iwavl_lookup_bounds` (used by the allocator): greatest key ≤ x and least key ≥ x of the reference list -/
+theorem avl_bounds_spec (t : Tree) (x : Int) (h : Bst t) :
+    lookupBounds t x = (floorL x (toList t), ceilL x (toList t)) := by
+  unfold lookupBounds; rw [bounds_spec x t none none h]; simp
+
+/-- calls of the tree API -/
+inductive AvlOp where
+  | ins (x : Int)
+  | rm (x : Int)
+
+def avlRun : List AvlOp → Tree → Tree
+  | [], t => t
+  | .ins x :: ops, t => avlRun ops (insert t x).1
+  | .rm x :: ops, t => avlRun ops (remove t x).1
+
+def avlRef : List AvlOp → List Int → List Int
+  | [], s => s
+  | .ins x :: ops, s => avlRef ops (insL x s)
+  | .rm x :: ops, s => avlRef ops (s.erase x)
+
+/-- for every sequence of inserts and removes starting from the empty tree: the tree is a balanced search
+tree whose in-order contents are those of the reference set -/
+theorem avl_refines_set (ops : List AvlOp) :
+    Bst (avlRun ops .nil) ∧ Bal (avlRun ops .nil) ∧ toList (avlRun ops .nil) = avlRef ops [] := by
+  suffices H : ∀ ops t, Bst t → Bal t → Bst (avlRun ops t) ∧ Bal (avlRun ops t) ∧ toList (avlRun ops t) = avlRef ops (toList t) by
+    simpa [toList] using H ops .nil (by simp [Bst, toList]) (by simp [Bal])
+  intro ops
+  induction ops with
+  | nil => intro t h1 h2; exact ⟨h1, h2, rfl⟩
+  | cons op ops ih =>
+    intro t h1 h2
+    cases op with
+    | ins x =>
+      have := ih (insert t x).1 (avl_bst t x h1).1 (avl_balanced t x h2).1
+      rw [(avl_insert_refines t x h1).1] at this
+      exact this
+    | rm x =>
+      have := ih (remove t x).1 (avl_bst t x h1).2 (avl_balanced t x h2).2
+      rw [(avl_remove_refines t x h1).1] at this
+      exact this
+
+example : toList (avlRun [.ins 3, .ins 1, .ins 2, .rm 3] .nil) = [1, 2] := by decide
+
+end AVL
 
 end IwModel.C18
